@@ -127,6 +127,27 @@ let run_case (line : Stdlib.String.t) =
          | Ok None -> out_str "N"
          | Panic site -> out_str "PANIC"; out_z site
          | OutOfFuel -> out_str "OUTOFFUEL") (run_selects { e_groups = gs; e_cur = z_of_int (-1) } dirs)
+   | "macro" ->
+     let n = next_int t in
+     let st = ref m_init in
+     let cur_reg = ref (z_of_int 0) in
+     for _ = 1 to n do
+       let kind = next_int t in
+       let keys = next_zlist t in
+       let z = z_of_int in
+       (match kind with
+        | 0 -> st := mstep !st (MKeys keys)
+        | 1 -> cur_reg := z 0; st := mstep !st (MStart (z 0, [z 24; z 40]))
+        | 2 -> st := mstep !st (MStop (!cur_reg, [z 24; z 41]))
+        | 4 -> cur_reg := List.hd keys; st := mstep !st (MStart (List.hd keys, [z 113]))
+        | 5 -> st := mstep !st (MStop (!cur_reg, [z 113]))
+        | 6 -> st := mstep !st (MRun (List.hd keys, [z 64]));
+          out_str "R"; out_zlist (fed_bytes !st);
+          st := { !st with m_fed = [] }
+        | _ -> st := mstep !st (MCallLast [z 24; z 101]);
+          out_str "R"; out_zlist (fed_bytes !st);
+          st := { !st with m_fed = [] })
+     done
    | "edcmds" -> out_list out_zlist modelled_commands
    | "quote" -> let c = next_z t in out_zlist (quote c)
    | _ -> out_str ("UNKNOWN-OP " ^ op));
